@@ -93,12 +93,19 @@ class SocketProxy(object):
         self.yield_prob = yield_prob
         self.hook = hook
         self.closed = False
+        self.blocked_sends = 0
+        self.short_sends = 0
 
     def send(self, data):
         if self.hook:
             self.hook('send', self, data)
         self.log.emit('io.send', data=bytes(data), gen=self.gen)
+        t0 = time.monotonic()
         r = self.inner.send(data)
+        if time.monotonic() - t0 > 0.02:
+            self.blocked_sends += 1       # the kernel made the caller wait
+        if r is not None and r < len(data):
+            self.short_sends += 1
         if self.yield_prob and self.rng.random() < self.yield_prob:
             time.sleep(0.0003 if self.rng.random() < 0.3 else 0)
         return r
@@ -139,6 +146,7 @@ def monitored_connection_class():
         vf_send_hook = None
         vf_wrap = True
         vf_connect_hook = None     # called at the start of _connect()
+        vf_sndbuf = None           # SO_SNDBUF to set on the new socket
 
         def __setattr__(self, name, value):
             # observes who replaces the packet reactor (state shared between
@@ -161,6 +169,11 @@ def monitored_connection_class():
             if self.vf_connect_hook is not None:
                 self.vf_connect_hook()
             super(MonitoredConnection, self)._connect()
+            if self.vf_sndbuf:
+                # environment shaping: a small kernel send buffer
+                import socket as _socket
+                self.socket.setsockopt(_socket.SOL_SOCKET, _socket.SO_SNDBUF,
+                                       self.vf_sndbuf)
             if log is not None and self.vf_wrap:
                 self.vf_generation = getattr(self, 'vf_generation', 0) + 1
                 self.file_object = FileProxy(
